@@ -327,7 +327,7 @@ func clip(s string, n int) string {
 type facts struct {
 	classes map[string]bool
 	regions map[string]bool // ids of the known-finding regions the document touches
-	tagSoup bool            // an HTML block of the source contains a < that no > closes
+	tagSoup bool            // raw HTML of the source is tag soup (unclosed <, or <pre>/<script>/.. left open in its block)
 	aKinds  []string        // "link" / "autolink" in document order (children of images skipped)
 }
 
@@ -385,6 +385,20 @@ func analyse(src []byte) facts {
 			}
 		}
 		return b
+	}
+	// raw HTML that opens a white-space-exact element (pre, textarea, script, style) without closing
+	// it in the same block: the templates' own white space between blocks would land inside it
+	exactBalance := map[ast.Node]map[string]int{}
+	noteRaw := func(container ast.Node, raw []byte) {
+		m := exactBalance[container]
+		if m == nil {
+			m = map[string]int{}
+			exactBalance[container] = m
+		}
+		low := bytes.ToLower(raw)
+		for _, name := range []string{"pre", "textarea", "script", "style", "title", "xmp", "listing", "plaintext"} {
+			m[name] += bytes.Count(low, []byte("<"+name)) - bytes.Count(low, []byte("</"+name))
+		}
 	}
 	hasAncestor := func(n ast.Node, k ast.NodeKind) bool {
 		for p := n.Parent(); p != nil; p = p.Parent() {
@@ -471,6 +485,7 @@ func analyse(src []byte) facts {
 			if v.HasClosure() {
 				rawText = append(rawText, v.ClosureLine.Value(src)...)
 			}
+			noteRaw(n, rawText)
 			if bytes.Count(rawText, []byte("<")) != bytes.Count(rawText, []byte(">")) {
 				// Markdown text swallowed by an HTML block (a line that consists of one tag starts
 				// one) and containing a literal <: both renderers copy the bytes, what the HTML parser
@@ -577,9 +592,27 @@ func analyse(src []byte) facts {
 			}
 		case *ast.RawHTML:
 			set("raw-html-inline")
+			container := n.Parent()
+			for container != nil && container.Type() != ast.TypeBlock {
+				container = container.Parent()
+			}
+			var raw []byte
+			for i := 0; i < v.Segments.Len(); i++ {
+				seg := v.Segments.At(i)
+				raw = append(raw, seg.Value(src)...)
+			}
+			noteRaw(container, raw)
 		}
 		return ast.WalkContinue, nil
 	})
+	for _, m := range exactBalance {
+		for _, d := range m {
+			if d != 0 {
+				f.tagSoup = true
+				set("raw-html-unbalanced-exact-element")
+			}
+		}
+	}
 	if refDefRe.Match(src) {
 		set("link-reference-definition")
 	}
